@@ -714,6 +714,12 @@ fn collect_comment_edits(
         for (comment_pos, _comment_text) in &token.preceding_comments {
             let line_num = comment_pos.line_number;
 
+            // A comment after other code on its line does not decide
+            // the indentation of that line.
+            if !comment_starts_line(src, comment_pos) {
+                continue;
+            }
+
             if !processed_lines.contains(&line_num) {
                 // Use the corrected indent of the following token, or its original column
                 let mut target_indent = corrected_indents
@@ -745,6 +751,10 @@ fn collect_comment_edits(
     // Trailing comments should be at depth 0
     for (comment_pos, _) in &token_stream.trailing_comments {
         let line_num = comment_pos.line_number;
+
+        if !comment_starts_line(src, comment_pos) {
+            continue;
+        }
 
         if !processed_lines.contains(&line_num) {
             let current_indent = comment_pos.column;
@@ -778,6 +788,12 @@ fn lines_starting_inside_token(
         }
     }
     lines
+}
+
+/// Is this comment the first thing on its line?
+fn comment_starts_line(src: &str, comment_pos: &crate::parser::position::Position) -> bool {
+    let line_start = comment_pos.start_offset - comment_pos.column;
+    src[line_start..comment_pos.start_offset].trim().is_empty()
 }
 
 /// Apply indentation edits to the source while preserving blank lines.
